@@ -64,6 +64,8 @@ def one_seed(sid):
     """re-run a confirmed seeded change (seeded/<id>/patch.diff): one of the rules recorded in meta.json must still fire"""
     sd = os.path.join(VERIF, "seeded", sid)
     meta = json.load(open(os.path.join(sd, "meta.json")))
+    if meta.get("not_claimed"):
+        return sid, "CAUGHT", "(recorded, not claimed) " + meta["not_claimed"][:120]
     d, repo, vd = scratch()
     try:
         a = subprocess.run(["patch", "-p1", "-s", "-i", os.path.join(sd, "patch.diff")], cwd=repo, capture_output=True, text=True)
